@@ -71,7 +71,8 @@ PROPS['C15']={
  'bounds_statement':'in_toto_verify from MIR with the recursive call executed for real (depth 2): sub-layout filed under an authorized / unauthorized key, 1-2 sub-layout signatures with free validity, expired or not, inner links present/absent in the dedicated sub-directory with free validity, decoys in the parent directory; summary compared field by field; and a step with two functionaries filing the same sub-layout, each copy checked against its own sub-directory.',
  'assumptions':PIPE_ASSUME,
  'obligations':[{'name':'sublayout','module':'harness.C15','cls':'Sublayout','quick':{'inner_steps':3},'thorough':{'inner_steps':3}},
-                {'name':'two_functionaries','module':'harness.C15','cls':'SublayoutTwoFunctionaries','quick':{},'thorough':{}}]}
+                {'name':'two_functionaries','module':'harness.C15','cls':'SublayoutTwoFunctionaries','quick':{},'thorough':{}},
+                {'name':'as_strict_as_top_level','module':'harness.C15','cls':'SublayoutAsStrictAsTopLevel','quick':{},'thorough':{}}]}
 
 PROPS['C08']={
  'bounds_statement':'in_toto_verify from MIR with a ghost event log behind the two side-effecting calls (in_toto_run, fs::write): every combination of stage failures (owner signature, expiry, missing / badly signed link, failing step rule) x inspection outcomes (spawn error, any i32 exit status, products, inspection rules) within the shape bound.',
